@@ -26,6 +26,49 @@ check('C03', 'proof',
       'Trusted: Coq kernel, extraction + driver, translators/harness, CPython struct/BytesIO, lxml. Header sizes < 0 and int() corner syntax are outside the model.',
       'Coq proof over the type-tree model + generated instance theorems + differential run (extracted model vs library)', 'DESIGN.md §6 C03')
 
+WORLD_NOTE = ('Trusted: Coq kernel, extraction + driver, translators/harness (generators, canonicaliser, the Python SPEC state of the generator), '
+              'CPython/struct/BytesIO/lxml. The model mirrors player.py/entity.py by hand; the tie is the differential run (library vs extracted model) '
+              'on generated histories over generated definition sets and on the real recordings, plus generated packet-table instance theorems.')
+check('C02', 'proof',
+      'Coq theorems: framing of any list of well-formed packets returns exactly those packets in order (frames_enc), the two truncation shapes '
+      '(cut header / cut payload), termination on EVERY byte string (fuel never exhausted), unmapped packets and mapped-but-ignored packets are '
+      'no-ops anywhere in both modes. Tie: generated packet tables proved equal to the model tables, delivered-packet traces of PlayerBase.play '
+      'vs the extracted framer on generated streams (all cut offsets, oversized lengths, extreme ids/times), no-op insertion into synthetic '
+      'and real streams, and histories with handler payloads shorter than their struct.', WORLD_NOTE,
+      'Coq proof over the framing/play model + generated instance theorems + differential run', 'DESIGN.md §6 C02')
+check('C05', 'proof',
+      'Coq theorems: after ANY event history the entity table is the last-writer-wins fold (refinement to an id -> (type, property -> value) spec, '
+      'pointwise, no axioms), events never affect other ids, a decodable property-update packet IS the update event at byte level, the base-player '
+      'id is reported as the player. Tie: three-way run (library / extracted model / SPEC state kept with plain dicts) over generated definition '
+      'sets and histories in all four dialects, and the final entity state of real recordings against the independent model.', WORLD_NOTE,
+      'Coq refinement proof + differential run against the extracted model and a Python SPEC state', 'DESIGN.md §6 C05')
+check('C06', 'proof',
+      'Coq theorems: the bit path with bits_required widths is walked back to the same path and leaf at any depth, update_at replaces exactly the '
+      'addressed sub-value and nothing beside the path, a nested packet changes only one client property of one entity, Python slice assignment '
+      'characterised for all (i,j); the 1-byte signed payload size is proved to refuse payloads >= 128 bytes (known finding C06-a). Tie: sweep '
+      'over list sizes 0..40 at depth 1-3 with EVERY (i,j,k) slice triple for small lists, the state after each single operation compared with '
+      'ordinary Python list/dict operations, plus generated histories and all nested packets of real recordings vs the independent model.', WORLD_NOTE,
+      'Coq proof of the path/leaf/slice model + exhaustive small-list sweep + differential run', 'DESIGN.md §6 C06')
+check('C07', 'proof',
+      'Coq theorems: an unsubscribed method call is a no-op and is not decoded for ANY payload bytes; with n callbacks the trace gains exactly n '
+      'entries with positional/keyword split; property subscribers get the new value after assignment; the "every registered callback is invoked" '
+      'clause is stated in full and REFUTED for the faithful registration model (known finding C07-a). Tie: callback traces (key, id, args, kwargs) '
+      'of recording subscribers registered through the public API vs the extracted model over generated histories x generated registrations, and '
+      'every method call / property / nested notification of real recordings with everything subscribed; direct clause tests for C07-a..d.', WORLD_NOTE,
+      'Coq proof of the dispatch model + differential callback traces', 'DESIGN.md §6 C07')
+check('C08', 'proof',
+      'Coq theorems (for the repaired code): a position packet sets exactly the four pose components of the addressed entity, an own-player packet '
+      'without a second entity sets the first from the packet, with a second entity copies its current pose, unknown ids are ignored, pose updates '
+      'never touch other ids or any property, new entities start at the defaults. Tie: three-way run on histories with several entities of equal '
+      'and different types and arbitrary float bit patterns; poses of real recordings vs the independent model.', WORLD_NOTE,
+      'Coq proof of the pose model + differential run', 'DESIGN.md §6 C08')
+check('C12', 'proof',
+      'Coq theorems over the real step function (which returns the state even on error): strict stops at the first failing packet with that error; '
+      'lenient equals strict on the survivors for trace-free failures; every packet class except player/entity creation and own-player position '
+      'fails atomically; a failing creation never registers the entity; without failures both modes agree. Tie: fault placement (8-20% faulty '
+      'packets of every class) in both modes vs the extracted model, the survivors statement tested on the library alone, get_info error/raise.', WORLD_NOTE,
+      'Coq proof over the play/step model + fault-placement differential run', 'DESIGN.md §6 C12')
+
 NOT_YET = {}
 ALL = ['C%02d' % i for i in range(1, 20)]
 def main():
